@@ -853,7 +853,10 @@ class MappingDirector(SectionLineParser):
 
         from_, to_, *weight = line.split()
         if weight:
-            weight = int(weight[0])
+            try:
+                weight = int(weight[0])
+            except ValueError:
+                weight = float(weight[0])
         else:
             weight = 1
 
